@@ -256,10 +256,10 @@ def emit_range(b, d, relfile, a, z, inserts, renames):
     evs = []
     for e in d["edits"]:
         if e["start"] >= a and e["end"] <= z:
-            evs.append((e["start"], 0, e["seq"], "edit", e))
+            evs.append((e["start"], 1, e["seq"], "edit", e))
     for n, (pos, prio, text, origin) in enumerate(inserts):
         if a <= pos <= z:
-            evs.append((pos, 1 + prio, n, "ins", (text, origin)))
+            evs.append((pos, 0 if prio < 0 else 2 + prio, n, "ins", (text, origin)))
     evs.sort(key=lambda t: (t[0], t[1], t[2]))
     cur = a
 
@@ -381,7 +381,7 @@ def build_unit(u, outpath, probe_fn=None, drop_fns=()):
                 elif it["kind"] == "fn":
                     emit_fn(b, u, m, d, items, idx, info, used_fns, probe_fn)
                 elif it["kind"] in ("struct", "enum"):
-                    ins = [(it["core_start"], 0, "\n#[verus_verify]\n", ("gen", "verus_verify"))]
+                    ins = [(it["core_start"], -1, "\n#[verus_verify]\n", ("gen", "verus_verify"))]
                     # keep (filtered) derive attrs: they live in the attr range
                     emit_range(b, d, m.file, it["start"], it["end"], ins, m.renames)
                     b.gen("\n")
@@ -457,12 +457,24 @@ def fn_inserts(u, m, d, it, info, used_fns, probe_fn):
     ins = []
     if fs is None:
         # verified for safety obligations only
-        ins.append((it["core_start"], 0, "\n#[verus_spec()]\n", ("gen", "verus_spec()")))
+        ins.append((it["core_start"], -1, "\n#[verus_spec()]\n", ("gen", "verus_spec()")))
         info["functions"].append({"fn": full, "file": m.file, "line": it["line"], "line_end": it["line_end"], "contract": False, "props": list(u.default_props)})
         return ins
     used_fns.add(full)
     text, origin = weave_attr(fs, full, probe=(probe_fn == full))
-    ins.append((it["core_start"], 0, text, origin))
+    ins.append((it["core_start"], -1, text, origin))
+    # Verus' verus_spec names the return value through a call `name(args)` that does not resolve
+    # for receiver-less associated functions: give it a same-signature external dummy to resolve to.
+    if it.get("parent") is not None and not it.get("has_self") and "body_start" in it and re.search(r"^\s*\w+\s*=>", spec_lines_to_text(fs.spec)):
+        par = d["items"][it["parent"]]
+        if par["kind"] == "impl":
+            gens = ", ".join(x for x in (par.get("impl_generics", ""), it.get("fn_generics", "")) if x)
+            sty = par.get("self_ty_text", "Self")
+            inputs = re.sub(r"\bSelf\b", sty, it.get("inputs", ""))
+            outp = re.sub(r"\bSelf\b", sty, it.get("output", ""))
+            dummy = " #[verifier::external] fn %s%s(%s)%s { unimplemented!() } " % (
+                it["name"], ("<" + gens + ">") if gens else "", inputs, (" -> " + outp) if outp else "")
+            ins.append((it["body_start"] + 1, -1, dummy, ("gen", "verus_spec return-name workaround")))
     info["functions"].append({"fn": full, "file": m.file, "line": it["line"], "line_end": it["line_end"], "contract": True, "props": fs.props})
     for lineno, t in fs.spec:
         if t.strip():
@@ -502,7 +514,7 @@ def fn_inserts(u, m, d, it, info, used_fns, probe_fn):
         else:
             a, z = find_anchor(body, anchor, occ, "proof in " + full)
             pos = it["body_start"] + (a if where == "before" else z)
-        ins.append((pos, 0, ptxt, ("spec", fs.specfile, first - 2, full, fs.props)))
+        ins.append((pos, -1 if where == "before" else 0, ptxt, ("spec", fs.specfile, first - 2, full, fs.props)))
         for lineno, t in sec:
             if re.match(r"\s*assert\b", t):
                 info["clauses"].append({"file": fs.specfile, "fn": full, "spec_line": lineno, "text": t.strip(), "props": clause_props(t, fs.props), "where": "proof"})
